@@ -158,13 +158,21 @@ end
 def encloseRecursive (len : List Char → Nat) (unit : Int) (trees : List FTree) : List FTree :=
   G.mergeRec (fun g it => FTree.encloseDF len unit it g) (trees.length + 1) trees
 
-/-- append the `{tag}` classes: `merge_attributes(vec![classes(css_tag)])` extends an existing
+/-- `Element::merge_attributes` for one new attribute: the value list of the FIRST attribute of that
+name is extended (a marker line carries several `class` attributes: only the first receives the
+tags; the serializer joins all of them later) -/
+def extendFirstClass (vals : List AttrVal) :
+    List (AttrName × List AttrVal) → List (AttrName × List AttrVal)
+  | [] => []
+  | a :: rest =>
+    if a.1 == AttrName.class then (a.1, a.2 ++ vals) :: rest else a :: extendFirstClass vals rest
+
+/-- append the `{tag}` classes: `merge_attributes(vec![classes(css_tag)])` extends the first existing
 `class` attribute or pushes a new (possibly empty) one -/
 def addClasses (tags : List (List Char)) : Node → Node
   | .elem t attrs kids =>
     let vals := tags.map AttrVal.token
-    if attrs.any (·.1 == AttrName.class) then
-      .elem t (attrs.map fun a => if a.1 == AttrName.class then (a.1, a.2 ++ vals) else a) kids
+    if attrs.any (·.1 == AttrName.class) then .elem t (extendFirstClass vals attrs) kids
     else .elem t (attrs ++ [(.class, vals)]) kids
   | n => n
 
